@@ -234,6 +234,15 @@ class Repo:
                 return ("value", module, expr.id)
             return None
         if isinstance(expr, ast.Attribute):
+            if isinstance(expr.value, ast.Name) and expr.value.id in ("self", "cls"):
+                sc = scope
+                while sc is not None and sc.cls is None:
+                    sc = sc.parent
+                if sc is not None:
+                    q = f"{sc.cls}.{expr.attr}"
+                    if q in module.funcs:
+                        return module.funcs[q]
+                return None
             base = self.resolve(module, expr.value, scope)
             if isinstance(base, Module):
                 if expr.attr in base.funcs:
